@@ -305,6 +305,21 @@ class Engine(Interp):
         self.assume(z3.Not(cond))
         return False
 
+    def decided(self, cond):
+        """True / False if the path condition already decides `cond`, else None (no forking)"""
+        if isinstance(cond, bool):
+            return cond
+        cond = z3.simplify(cond)
+        if z3.is_true(cond):
+            return True
+        if z3.is_false(cond):
+            return False
+        if self.solver.check(z3.Not(cond)) == z3.unsat:
+            return True
+        if self.solver.check(cond) == z3.unsat:
+            return False
+        return None
+
     def prove(self, name, claim, context=None, **info):
         """Record an obligation.  `context`: prove from this explicit list of already-established
         facts instead of the whole path condition (a cut: keeps the query small; sound because
